@@ -820,28 +820,42 @@ def run_C13(tier, seed):
     from job_shop_lib.reinforcement_learning import MakespanReward, IdleTimeReward
     res = Result("C13")
     insts, res.bound, cap = scope(tier, seed)
+    res.bound["histories"] = ("random maximal and partial histories; each dispatcher is reset and re-used for a second "
+                              "history (rewards must add up in every episode)")
     rng = random.Random(seed)
     for jobs in insts:
         for _ in range(4 if tier == "quick" else 12):
             inst = build_instance(jobs)
             d = Dispatcher(inst)
             mk_r, idle_r = MakespanReward(d), IdleTimeReward(d)
-            model = Model(jobs)
-            while model.legal():
-                j, m = rng.choice(model.legal())
-                d.dispatch(inst.jobs[j][model.k[j]], m)
-                model.apply(j, m)
-                res.count("rewards-add-up")
-                res.case((str(jobs), tuple(model.history)))
-                idle = sum(model.machine_free[mm] - sum(e - s for (_, _, s, e) in model.sched[mm])
-                           for mm in range(model.M))
-                ok = (len(mk_r.rewards) == model.n and len(idle_r.rewards) == model.n
-                      and sum(mk_r.rewards) == -model.makespan() and sum(idle_r.rewards) == -idle
-                      and all(r <= 0 for r in mk_r.rewards) and all(r <= 0 for r in idle_r.rewards)
-                      and mk_r.last_reward == mk_r.rewards[-1] and idle_r.last_reward == idle_r.rewards[-1])
-                if not ok:
-                    res.breach("rewards-add-up", f"makespan rewards {mk_r.rewards} (makespan {model.makespan()}), "
-                               f"idle rewards {idle_r.rewards} (idle {idle})", jobs=jobs, history=model.history)
+            for episode in range(2):
+                model = Model(jobs)
+                stop_after = model.N if episode == 1 or rng.random() < 0.5 else rng.randint(0, model.N)
+                broken = False
+                while model.legal() and model.n < stop_after:
+                    j, m = rng.choice(model.legal())
+                    d.dispatch(inst.jobs[j][model.k[j]], m)
+                    model.apply(j, m)
+                    res.count("rewards-add-up")
+                    res.case((str(jobs), episode, tuple(model.history)))
+                    idle = sum(model.machine_free[mm] - sum(e - s for (_, _, s, e) in model.sched[mm])
+                               for mm in range(model.M))
+                    ok = (len(mk_r.rewards) == model.n and len(idle_r.rewards) == model.n
+                          and sum(mk_r.rewards) == -model.makespan() and sum(idle_r.rewards) == -idle
+                          and all(r <= 0 for r in mk_r.rewards) and all(r <= 0 for r in idle_r.rewards)
+                          and mk_r.last_reward == mk_r.rewards[-1] and idle_r.last_reward == idle_r.rewards[-1])
+                    if not ok:
+                        res.breach("rewards-add-up", f"episode {episode + 1}: makespan rewards {mk_r.rewards} (makespan "
+                                   f"{model.makespan()}), idle rewards {idle_r.rewards} (idle {idle})", jobs=jobs,
+                                   history=model.history, episode=episode)
+                        broken = True
+                        break
+                if broken:
                     break
+                d.reset()
+                res.count("rewards-empty-after-reset")
+                if mk_r.rewards or idle_r.rewards or mk_r.last_reward != 0:
+                    res.breach("rewards-empty-after-reset", f"{mk_r.rewards} {idle_r.rewards}", jobs=jobs,
+                               history=model.history)
         res.sample({"jobs": jobs})
     return res
